@@ -81,6 +81,18 @@ Definition elapsed_ok (I T : N) (r : ka_result) (n : nat) (elapsed : N) : bool :
   | _ => N.of_nat n * I <=? elapsed
   end.
 
+(* "within the timeout" counts from the ping: ErrPingTimeout is not reported before the previous
+   ping's return (its observed start + its scripted duration) plus the timeout.  Sound: the
+   per-ping context is created after the previous ping returned. *)
+Definition timeout_after_prev (tv : N) (durs starts : list N) (elapsed : N) : bool :=
+  match rev starts with
+  | _ :: sprev :: _ => sprev + nth (length starts - 2) durs 0 + tv <=? elapsed
+  | _ => true
+  end.
+
+Definition is_timeout (r : ka_result) : bool :=
+  match r with KA_returned EPingTimeout => true | _ => false end.
+
 (* ---------- KeepAlive with a scripted Client / a BaseClient and a scripted broker ---------- *)
 Definition c13_out_case := (N * N * list out_code * c13_obs)%type.   (* I, T, script, observation *)
 Definition c13_env_case := (N * N * list env_code * c13_obs)%type.
@@ -90,7 +102,10 @@ Definition c13_out_spec_ok (c : c13_out_case) : bool :=
   let '(iv, tv, s, obs) := c in
   let '(r, n) := spec_result (map dec_out s) in
   impl_res_eqb (io_res obs) (expect r) && Nat.eqb (length (io_starts obs)) n
-  && ticks_ok iv (io_starts obs) && elapsed_ok iv tv r n (io_elapsed obs).
+  && ticks_ok iv (io_starts obs) && elapsed_ok iv tv r n (io_elapsed obs)
+  && (negb (is_timeout r) ||
+      timeout_after_prev tv (map (fun c : out_code => let '(k, a) := c in if k =? 0 then a else 0) s)
+                         (io_starts obs) (io_elapsed obs)).
 
 Definition model_ok (o : ka_out) (obs : c13_obs) : bool :=
   impl_res_eqb (io_res obs) (expect (ko_result o)) && all_ge (ko_starts o) (io_starts obs)
@@ -103,26 +118,30 @@ Definition c13_env_spec_ok (c : c13_env_case) : bool :=
   let '(iv, tv, s, obs) := c in
   let '(r, n) := spec_env iv tv (map dec_env s) in
   impl_res_eqb (io_res obs) (expect r) && Nat.eqb (length (io_starts obs)) n
-  && ticks_ok iv (io_starts obs) && elapsed_ok iv tv r n (io_elapsed obs).
+  && ticks_ok iv (io_starts obs) && elapsed_ok iv tv r n (io_elapsed obs)
+  && (negb (is_timeout r) ||
+      timeout_after_prev tv (map (fun c : env_code => let '(_, beh, d, _, _) := c in if beh =? 0 then d else 0) s)
+                         (io_starts obs) (io_elapsed obs)).
 
 Definition c13_env_model_ok (c : c13_env_case) : bool :=
   let '(iv, tv, s, obs) := c in model_ok (ka_env iv tv (map dec_env s)) obs.
 
 (* a real BaseClient and a peer that sends surplus / zero-delay PINGRESPs: per ping (u unsolicited
    PINGRESPs before its PINGREQ, z PINGRESPs consumed by the reader before Transport.Write of the
-   PINGREQ returns, r PINGRESPs queued after that) *)
-Definition c13_wire_case := (N * N * list (nat * nat * nat) * c13_obs)%type.
+   PINGREQ returns, r PINGRESPs queued after that, o batches of other packets — PUBLISH QoS 0/1/2,
+   PUBREL, stray acks — sent right after the PINGREQ) *)
+Definition c13_wire_case := (N * N * list (nat * nat * nat * nat) * c13_obs)%type.
 
 (* property: the first ping the peer did not answer decides, surplus PINGRESPs or not *)
 Definition c13_wire_spec_ok (c : c13_wire_case) : bool :=
   let '(iv, tv, urs, obs) := c in
-  let '(r, n) := spec_result (map (fun x => let '(_, z, r) := x in match (z + r)%nat with O => Never | _ => Answered 0 end) urs) in
+  let '(r, n) := spec_result (map (fun x => let '(_, z, r, _) := x in match (z + r)%nat with O => Never | _ => Answered 0 end) urs) in
   impl_res_eqb (io_res obs) (expect r) && Nat.eqb (length (io_starts obs)) n
   && ticks_ok iv (io_starts obs) && elapsed_ok iv tv r n (io_elapsed obs).
 
 (* model: the PINGRESP slot machine decides which pings are answered *)
 Definition c13_wire_model_ok (c : c13_wire_case) : bool :=
-  let '(iv, tv, urs, obs) := c in model_ok (keepalive iv tv (wire_outcomes urs)) obs.
+  let '(iv, tv, urs, obs) := c in model_ok (keepalive iv tv (wire_outcomes_talk urs)) obs.
 
 Definition c13_wire_violations (cs : list c13_wire_case) := indices_where (fun c => negb (c13_wire_spec_ok c)) cs.
 Definition c13_wire_mismatches (cs : list c13_wire_case) := indices_where (fun c => negb (c13_wire_model_ok c)) cs.
@@ -183,8 +202,9 @@ Inductive sys_case :=
    (0: right after Connect returned);
    hung: after that PINGREQ the peer does not take bytes either (writes block until the
    transport is closed locally); others: packets other than PINGREQ attempted on that connection
-   while it was open *)
-| SysSilent (I T : N) (k : nat) (cc : option nat) (hung : bool) (others : nat)
+   while it was open (acks of inbound PUBLISHes not counted); talk: mute to pings only — after the
+   unanswered PINGREQ the peer sends PUBLISH QoS 0/1/2, PUBREL and stray acks *)
+| SysSilent (I T : N) (k : nat) (cc : option nat) (hung talk : bool) (others : nat)
     (pings : nat)            (* PINGREQs seen on that connection *)
     (closed redialed connected : bool)  (* client closed that transport / dialled again / sent a fresh CONNECT *)
     (err : impl_res)         (* Err() of that connection's BaseClient *)
@@ -202,7 +222,7 @@ Inductive sys_case :=
 (* PingInterval I and Timeout T differ; the broker answers every PINGREQ after delay d (< T);
    observed when [need] pings were answered (or the connection was closed / replaced / the
    scenario's limit passed); times = arrival of each PINGREQ since the CONNACK was sent *)
-| SysPeer (I T d : N) (need : nat)
+| SysPeer (I T d rt : N) (need : nat)   (* rt = RetryClient.ResponseTimeout (0 = none) *)
     (answered dials closes : nat) (err : impl_res) (times : list N)
 (* option-presence sweep: CONNECT keep-alive ka, WithPingInterval p, WithTimeout t (0 = option
    not given).  silent = the broker never answers a PINGREQ (else it answers each at once).
@@ -220,7 +240,7 @@ Definition err_expect (e : option ka_err) : impl_res :=
 (* property, directly on the observation *)
 Definition sys_spec_ok (c : sys_case) : bool :=
   match c with
-  | SysSilent iv tv k cc hung others pings closed redialed connected err gap =>
+  | SysSilent iv tv k cc hung talk others pings closed redialed connected err gap =>
       Nat.eqb others 0 && closed && redialed && connected && impl_res_eqb err (IErr true false false None) && (tv <=? gap)
       && Nat.leb (S k) pings
   | SysHealthy iv tv pings elapsed dials closes err err_after =>
@@ -230,7 +250,7 @@ Definition sys_spec_ok (c : sys_case) : bool :=
       Nat.eqb dials 2 && negb closed2 && impl_res_eqb err2 INil && Nat.leb 1 pings2
   | SysDisc iv tv k pings dials graceful err =>
       graceful && Nat.eqb dials 1 && impl_res_eqb err INil
-  | SysPeer iv tv d need answered dials closes err times =>
+  | SysPeer iv tv d rt need answered dials closes err times =>
       (* a peer that answers within the timeout is kept, pings go out every interval (enough of
          them within the scenario's limit), none before its tick *)
       Nat.leb need answered && Nat.eqb dials 1 && Nat.eqb closes 0 && impl_res_eqb err INil
@@ -251,8 +271,8 @@ Definition sys_spec_ok (c : sys_case) : bool :=
 (* model: the connection's keep-alive run + the goroutine's reaction + the loop's reaction *)
 Definition sys_model_ok (c : sys_case) : bool :=
   match c with
-  | SysSilent iv tv k cc hung others pings closed redialed connected err gap =>
-      match rc_conn_keepalive iv tv (fun j => match cc with Some m => if Nat.leb m j then Some Canceled else None | None => None end) (zeros k ++ [Never]) with
+  | SysSilent iv tv k cc hung talk others pings closed redialed connected err gap =>
+      match rc_conn_keepalive iv tv (fun j => match cc with Some m => if Nat.leb m j then Some Canceled else None | None => None end) (if talk then wire_outcomes_talk (repeat (O, O, 1%nat, O) k ++ [(O, O, O, 1%nat)]) else zeros k ++ [Never]) with
       | None => false
       | Some o =>
           let st := ka_react 1 o false false st_fresh in
@@ -295,8 +315,8 @@ Definition sys_model_ok (c : sys_case) : bool :=
           Nat.eqb pings (KeepAlive.pings o) && impl_res_eqb err (err_expect (cs_err (st 1%nat)))
           && Nat.eqb dials 1 && graceful
       end
-  | SysPeer iv tv d need answered dials closes err times =>
-      match rc_keepalive_peer (mk_ro iv tv) (repeat (Some d) (length times)) with
+  | SysPeer iv tv d rt need answered dials closes err times =>
+      match rc_keepalive_cfg (mk_ro iv tv) rt (repeat (Some d) (length times)) with
       | None => false
       | Some o =>
           let st := ka_react 1 o false false st_fresh in
